@@ -68,9 +68,12 @@ func (e *Eng) packResults(c *ssa.CallCommon, rs []*Val) *Val {
 }
 
 func (e *Eng) execCallWith(fr *Frame, ins ssa.Instruction, c *ssa.CallCommon, fnv *Val, args []*Val, st *State, g string, isDefer bool) *Val {
+	fr.siteIns = ins
+	defer func() { fr.siteIns = nil }()
 	e.siteSetsWhen(fr, "call", calleeName(c), st, g, nil, true)
 	res := e.execCallInner(fr, ins, c, fnv, args, st, g, isDefer)
 	e.siteSetsWhen(fr, "call", calleeName(c), st, g, res, false)
+	e.siteLemmasAfter(fr, "call", calleeName(c), ins.Pos(), st, g, res)
 	return res
 }
 
@@ -446,9 +449,10 @@ func (e *Eng) applyFuncSpec(fr *Frame, fs *FuncSpec, callee *ssa.Function, c *ss
 	key := fnKey(callee)
 	env := e.bindParams(fs, callee, args)
 	e.sc.comment("modular call " + key)
+	covN := e.coverCall(fr, key, g, 0, len(fs.Ensures) > 0)
 	for _, rq := range fs.Requires {
 		t := e.evalClauseEnv(rq, env, st, st)
-		e.oblige("pre", key+"/"+rq.Label, mergeProps(rq.Props, e.safety(fr)), pos, g, t)
+		e.oblige("pre", key+"/"+rq.Label, e.preProps(fr, rq), pos, g, t)
 	}
 	// held-lock discipline
 	if fs.Monitor != "" {
@@ -505,6 +509,7 @@ func (e *Eng) applyFuncSpec(fr *Frame, fs *FuncSpec, callee *ssa.Function, c *ss
 		t := e.evalClauseEnv(en, env, st, old)
 		e.sc.assume(implies(g, t), "callee ensures "+key+"/"+en.Label)
 	}
+	e.coverCall(fr, key, g, covN, len(fs.Ensures) > 0)
 	if fs.Monitor != "" {
 		if ls := e.spec.Locks[fs.Monitor]; ls != nil && len(args) > 0 {
 			e.assumeLockInvs(ls, args[0], st, g)
@@ -540,7 +545,7 @@ func (e *Eng) applyIfaceSpec(fr *Frame, is *IfaceSpec, c *ssa.CallCommon, recv *
 	}
 	for _, rq := range is.Requires {
 		t := e.evalClauseEnv(rq, env, st, st)
-		e.oblige("pre", is.Key+"/"+rq.Label, mergeProps(rq.Props, e.safety(fr)), pos, g, t)
+		e.oblige("pre", is.Key+"/"+rq.Label, e.preProps(fr, rq), pos, g, t)
 	}
 	if is.RequiresHeld != "" {
 		ok := "false"
@@ -549,8 +554,21 @@ func (e *Eng) applyIfaceSpec(fr *Frame, is *IfaceSpec, c *ssa.CallCommon, recv *
 		}
 		e.oblige("held", is.RequiresHeld+" at "+is.Key, is.HeldProps, pos, g, ok)
 	}
+	covN := e.coverCall(fr, is.Key, g, 0, len(is.Ensures) > 0)
 	old := st.clone()
+	oldFr := e.get(st, frRegion, "Int")
 	for _, a := range is.Assigns {
+		// "fresh <pattern>": the implementation may allocate and fill new objects of that region, existing ones are untouched
+		if strings.HasPrefix(a, "fresh ") {
+			if st.reg[frRegion] == oldFr {
+				e.havocReg(st, frRegion)
+				e.sc.assume(sx(">=", e.get(st, frRegion, "Int"), oldFr), "frontier monotone over call")
+			}
+			for _, r := range e.resolveRegionPattern(strings.TrimPrefix(a, "fresh ")) {
+				e.havocRegFresh(st, r, oldFr)
+			}
+			continue
+		}
 		for _, r := range e.resolveRegionPattern(a) {
 			e.havocReg(st, r)
 		}
@@ -565,6 +583,7 @@ func (e *Eng) applyIfaceSpec(fr *Frame, is *IfaceSpec, c *ssa.CallCommon, recv *
 		t := e.evalClauseEnv(en, env, st, old)
 		e.sc.assume(implies(g, t), "iface ensures "+is.Key+"/"+en.Label)
 	}
+	e.coverCall(fr, is.Key, g, covN, len(is.Ensures) > 0)
 	return e.packResults(c, rs)
 }
 
@@ -577,9 +596,7 @@ func (e *Eng) siteSetsWhen(fr *Frame, kind, name string, st *State, g string, re
 		if s.Kind != kind || s.Callee != name || s.SetGhost == "" || s.Before != before {
 			continue
 		}
-		ck := fmt.Sprintf("set:%s:%s:%p", name, s.SetGhost, s)
-		fr.descN[ck]++
-		if s.Ordinal != 0 && s.Ordinal != fr.descN[ck] {
+		if s.Ordinal != 0 && s.Ordinal != e.siteOrdinal(fr, kind, name) {
 			continue
 		}
 		env := e.siteEnv(fr)
@@ -616,12 +633,10 @@ func (e *Eng) siteAsserts(fr *Frame, kind, name string, pos token.Pos, st *State
 		return
 	}
 	for _, s := range fr.fspec.Sites {
-		if s.Kind != kind || s.Callee != name || s.SetGhost != "" {
+		if s.Kind != kind || s.Callee != name || s.SetGhost != "" || s.After {
 			continue
 		}
-		fr.descN["site:"+kind+":"+name+":"+s.Clause.Label]++
-		ord := fr.descN["site:"+kind+":"+name+":"+s.Clause.Label]
-		if s.Ordinal != 0 && s.Ordinal != ord {
+		if s.Ordinal != 0 && s.Ordinal != e.siteOrdinal(fr, kind, name) {
 			continue
 		}
 		env := e.siteEnv(fr)
@@ -1040,4 +1055,84 @@ func (e *Eng) relyStepAll(st *State) {
 			e.sc.assume(fmt.Sprintf("(forall ((p Int)) (! %s :pattern ((select %s p))))", rel, now), "rely step for atomic "+k)
 		}
 	}
+}
+
+// siteLemmasAfter: `at call f: lemma-after L: e` is proved in the state right after the call (res = result) and assumed from there on.
+func (e *Eng) siteLemmasAfter(fr *Frame, kind, name string, pos token.Pos, st *State, g string, res *Val) {
+	if fr.fspec == nil {
+		return
+	}
+	for _, s := range fr.fspec.Sites {
+		if s.Kind != kind || s.Callee != name || !s.After {
+			continue
+		}
+		if s.Ordinal != 0 && s.Ordinal != e.siteOrdinal(fr, kind, name) {
+			continue
+		}
+		env := e.siteEnv(fr)
+		if res != nil {
+			env.vars["res"] = res
+		}
+		t := e.evalClause(s.Clause, env, st, fr.oldFor(st), fr)
+		e.siteHit(s)
+		e.oblige("site-lemma", kind+":"+name+"/"+s.Clause.Label, s.Clause.Props, pos, g, t)
+	}
+}
+
+// coverCall brackets a call whose contract is assumed with two reachability covers: if the point before the
+// call is reachable and the point after it is not, the assumed postconditions contradict what is known there
+// and everything downstream would be discharged vacuously.
+func (e *Eng) coverCall(fr *Frame, key, g string, n int, on bool) int {
+	if !on {
+		return 0
+	}
+	if n == 0 {
+		e.covSeq++
+		n = e.covSeq
+		e.cover(fmt.Sprintf("reach/%s@%d", key, n), e.safety(fr), g)
+		return n
+	}
+	e.cover(fmt.Sprintf("after/%s@%d", key, n), e.safety(fr), g)
+	return n
+}
+
+// siteOrdinal: `#k` in a site clause counts the sites of that kind and name in source order within the function.
+func (e *Eng) siteOrdinal(fr *Frame, kind, name string) int {
+	if fr.siteIns == nil {
+		return 0
+	}
+	if fr.siteOrds == nil {
+		fr.siteOrds = map[ssa.Instruction]int{}
+		groups := map[string][]ssa.Instruction{}
+		for _, b := range fr.fn.Blocks {
+			for _, ins := range b.Instrs {
+				switch x := ins.(type) {
+				case *ssa.Call:
+					groups["call:"+calleeName(x.Common())] = append(groups["call:"+calleeName(x.Common())], ins)
+				case *ssa.Defer:
+					groups["call:"+calleeName(x.Common())] = append(groups["call:"+calleeName(x.Common())], ins)
+				case *ssa.Go:
+					groups["go:"+calleeName(x.Common())] = append(groups["go:"+calleeName(x.Common())], ins)
+				case *ssa.MakeSlice:
+					groups["make:"+descr(x.Len, 0)] = append(groups["make:"+descr(x.Len, 0)], ins)
+				}
+			}
+		}
+		for _, g := range groups {
+			sort.SliceStable(g, func(i, j int) bool { return g[i].Pos() < g[j].Pos() })
+			for i, ins := range g {
+				fr.siteOrds[ins] = i + 1
+			}
+		}
+	}
+	return fr.siteOrds[fr.siteIns]
+}
+
+// preProps: a precondition without property tags is a safety obligation of the caller; one that is tagged
+// belongs to those properties only (it is checked wherever the caller is in their scope).
+func (e *Eng) preProps(fr *Frame, rq *Clause) []string {
+	if len(rq.Props) > 0 {
+		return rq.Props
+	}
+	return e.safety(fr)
 }
